@@ -138,3 +138,236 @@ def gen_cache_key():
     ok, log = compile_gen('CacheKey.v')
     missing = {fn: [p for p in d['relevant'] if p not in d['hashed']] for fn, d in info.items()}
     return ('cachekey: generated key_separates theorems', ok, f'arguments read by the parser but not in the cache name: {missing}' if not ok else 'ok'), info
+
+
+# ---------------------------------------------------------------- unit: voxel / site index expressions (C08, C10)
+_BINOPS = {ast.Add: '+', ast.Sub: '-', ast.Mult: '*', ast.Mod: 'mod', ast.FloorDiv: '/'}
+
+
+def _zexpr(node, env):
+    """integer expression over names in env -> Gallina Z term"""
+    if isinstance(node, ast.Name):
+        if node.id not in env:
+            raise Unsupported(f'name {node.id}')
+        return env[node.id]
+    if isinstance(node, ast.Constant) and isinstance(node.value, int) and not isinstance(node.value, bool):
+        return f'({node.value})' if node.value < 0 else str(node.value)
+    if isinstance(node, ast.BinOp) and type(node.op) in _BINOPS:
+        return f'({_zexpr(node.left, env)} {_BINOPS[type(node.op)]} {_zexpr(node.right, env)})'
+    if isinstance(node, ast.UnaryOp) and isinstance(node.op, ast.USub):
+        return f'(- {_zexpr(node.operand, env)})'
+    raise Unsupported(ast.dump(node)[:80])
+
+
+def wrapped_sites_unit():
+    """Pathway.wrapped_sites: `xdim, ydim, zdim = self.dims; return [(e1, e2, e3) for x, y, z in self.sites]`"""
+    f = _find_func(_parse('path.py'), 'Pathway', 'wrapped_sites')
+    body = [st for st in f.body if not (isinstance(st, ast.Expr) and isinstance(st.value, ast.Constant))]
+    # optional guard `if not self.dims: raise ...`
+    if body and isinstance(body[0], ast.If):
+        if not (len(body[0].body) == 1 and isinstance(body[0].body[0], ast.Raise) and not body[0].orelse):
+            raise Unsupported('guard is not a plain raise')
+        body = body[1:]
+    if len(body) != 2:
+        raise Unsupported(f'{len(body)} statements')
+    unpack, ret = body
+    if not (isinstance(unpack, ast.Assign) and isinstance(unpack.targets[0], ast.Tuple) and len(unpack.targets[0].elts) == 3
+            and isinstance(unpack.value, ast.Attribute) and unpack.value.attr == 'dims'):
+        raise Unsupported('dims unpacking')
+    dnames = [e.id for e in unpack.targets[0].elts]
+    if not (isinstance(ret, ast.Return) and isinstance(ret.value, ast.ListComp) and len(ret.value.generators) == 1):
+        raise Unsupported('return is not a list comprehension')
+    gen = ret.value.generators[0]
+    if gen.ifs or not (isinstance(gen.target, ast.Tuple) and len(gen.target.elts) == 3
+                       and isinstance(gen.iter, ast.Attribute) and gen.iter.attr == 'sites'):
+        raise Unsupported('comprehension shape')
+    snames = [e.id for e in gen.target.elts]
+    elt = ret.value.elt
+    if not (isinstance(elt, ast.Tuple) and len(elt.elts) == 3):
+        raise Unsupported('element is not a 3-tuple')
+    env = {n: n for n in dnames + snames}
+    exprs = [_zexpr(e, env) for e in elt.elts]
+    return dnames, snames, exprs
+
+
+def frac_sites_unit():
+    """Pathway.frac_sites: `sites = self.wrapped_sites(); return (np.array(sites) + 0.5) / np.array(self.dims)`"""
+    f = _find_func(_parse('path.py'), 'Pathway', 'frac_sites')
+    body = [st for st in f.body if not (isinstance(st, ast.Expr) and isinstance(st.value, ast.Constant))]
+    if body and isinstance(body[0], ast.If):
+        body = body[1:]
+    if len(body) != 2:
+        raise Unsupported('frac_sites shape')
+    a, r = body
+    if not (isinstance(a, ast.Assign) and isinstance(a.value, ast.Call) and isinstance(a.value.func, ast.Attribute)
+            and a.value.func.attr == 'wrapped_sites' and not a.value.args):
+        raise Unsupported('sites = self.wrapped_sites()')
+    v = r.value
+    ok = (isinstance(r, ast.Return) and isinstance(v, ast.BinOp) and isinstance(v.op, ast.Div)
+          and isinstance(v.left, ast.BinOp) and isinstance(v.left.op, ast.Add)
+          and isinstance(v.left.right, ast.Constant) and v.left.right.value == 0.5
+          and isinstance(v.left.left, ast.Call) and getattr(v.left.left.func, 'attr', '') == 'array'
+          and isinstance(v.left.left.args[0], ast.Name) and v.left.left.args[0].id == a.targets[0].id
+          and isinstance(v.right, ast.Call) and getattr(v.right.func, 'attr', '') == 'array'
+          and isinstance(v.right.args[0], ast.Attribute) and v.right.args[0].attr == 'dims')
+    if not ok:
+        raise Unsupported('frac_sites expression')
+    return True
+
+
+def volume_index_unit():
+    """Volume.voxel_to_frac_coords = (np.array(voxel) + 0.5) / np.array(self.dims);
+    Volume.frac_coords_to_voxel = (np.array(frac_coords) * np.array(self.dims)).astype(int)"""
+    tree = _parse('volume.py')
+    f1 = _find_func(tree, 'Volume', 'voxel_to_frac_coords')
+    r = [st for st in f1.body if isinstance(st, ast.Return)]
+    v = r[0].value if len(r) == 1 else None
+    ok1 = (v is not None and isinstance(v, ast.BinOp) and isinstance(v.op, ast.Div) and isinstance(v.left, ast.BinOp)
+           and isinstance(v.left.op, ast.Add) and isinstance(v.left.right, ast.Constant) and v.left.right.value == 0.5
+           and isinstance(v.left.left, ast.Call) and v.left.left.args and isinstance(v.left.left.args[0], ast.Name)
+           and v.left.left.args[0].id == 'voxel' and isinstance(v.right, ast.Call)
+           and isinstance(v.right.args[0], ast.Attribute) and v.right.args[0].attr == 'dims')
+    f2 = _find_func(tree, 'Volume', 'frac_coords_to_voxel')
+    r = [st for st in f2.body if isinstance(st, ast.Return)]
+    v = r[0].value if len(r) == 1 else None
+    ok2 = (v is not None and isinstance(v, ast.Call) and isinstance(v.func, ast.Attribute) and v.func.attr == 'astype'
+           and len(v.args) == 1 and isinstance(v.args[0], ast.Name) and v.args[0].id == 'int'
+           and isinstance(v.func.value, ast.BinOp) and isinstance(v.func.value.op, ast.Mult)
+           and isinstance(v.func.value.left, ast.Call) and v.func.value.left.args[0].id == 'frac_coords'
+           and isinstance(v.func.value.right, ast.Call) and v.func.value.right.args[0].attr == 'dims')
+    if not (ok1 and ok2):
+        raise Unsupported(f'voxel_to_frac_coords ok={ok1} frac_coords_to_voxel ok={ok2}')
+    return True
+
+
+def gen_voxel():
+    os.makedirs(GEN, exist_ok=True)
+    try:
+        dn, sn, ex = wrapped_sites_unit()
+        frac_sites_unit()
+        volume_index_unit()
+    except Unsupported as e:
+        return ('voxel', False, f'translator: unsupported {e}')
+    defs = ['(* GENERATED from /repo/src/gemdat/path.py and volume.py on every run -- do not edit *)',
+            'From GV Require Import Base.Prelude.', '',
+            'Definition wrapped_site (dims s : Z * Z * Z) : Z * Z * Z :=',
+            f"  let '({dn[0]}, {dn[1]}, {dn[2]}) := dims in let '({sn[0]}, {sn[1]}, {sn[2]}) := s in",
+            f'  ({ex[0]}, {ex[1]}, {ex[2]}).', '',
+            '(* frac_sites = (wrapped + 0.5) / dims, voxel_to_frac_coords = (voxel + 0.5) / dims: numerator, denominator per axis *)',
+            'Definition frac_site (dims s : Z * Z * Z) : (Z * Z) * (Z * Z) * (Z * Z) :=',
+            "  let '(nx, ny, nz) := dims in let '(x, y, z) := wrapped_site dims s in",
+            '  ((2 * x + 1, 2 * nx), (2 * y + 1, 2 * ny), (2 * z + 1, 2 * nz)).']
+    open(os.path.join(GEN, 'VoxelDef.v'), 'w').write('\n'.join(defs) + '\n')
+    okd, logd = compile_gen('VoxelDef.v')
+    if not okd:
+        return ('voxel', False, 'generated definitions do not compile: ' + logd[-400:])
+    lines = ['(* GENERATED on every run -- theorems about the generated definitions *)',
+             'From GV Require Import Base.Prelude Gen.VoxelDef.', '',
+             '(* wrapped voxel coordinates lie inside the original grid along every axis *)',
+             'Theorem wrapped_in_grid : forall nx ny nz x y z, 0 < nx -> 0 < ny -> 0 < nz ->',
+             "  let '(a, b, c) := wrapped_site (nx, ny, nz) (x, y, z) in",
+             '  0 <= a < nx /\\ 0 <= b < ny /\\ 0 <= c < nz.',
+             'Proof. intros nx ny nz x y z Hx Hy Hz. unfold wrapped_site. repeat split; lia. Qed.', '',
+             '(* and they are the same voxel modulo the grid *)',
+             'Theorem wrapped_congruent : forall nx ny nz x y z, 0 < nx -> 0 < ny -> 0 < nz ->',
+             "  let '(a, b, c) := wrapped_site (nx, ny, nz) (x, y, z) in",
+             '  (exists k, a = x + k * nx) /\\ (exists k, b = y + k * ny) /\\ (exists k, c = z + k * nz).',
+             'Proof. intros nx ny nz x y z Hx Hy Hz. unfold wrapped_site. repeat split;',
+             '  [exists (- (x / nx)) | exists (- (y / ny)) | exists (- (z / nz))]; lia. Qed.', '',
+             '(* fractional coordinates of the wrapped sites lie strictly inside the unit cell *)',
+             'Theorem frac_in_cell : forall nx ny nz x y z, 0 < nx -> 0 < ny -> 0 < nz ->',
+             "  let '((a, da), (b, db), (c, dc)) := frac_site (nx, ny, nz) (x, y, z) in",
+             '  0 < a < da /\\ 0 < b < db /\\ 0 < c < dc.',
+             'Proof. intros nx ny nz x y z Hx Hy Hz. unfold frac_site, wrapped_site. repeat split; lia. Qed.']
+    open(os.path.join(GEN, 'Voxel.v'), 'w').write('\n'.join(lines) + '\n')
+    ok, log = compile_gen('Voxel.v')
+    return ('voxel: generated wrapped_site/frac_site + wrapped_in_grid, wrapped_congruent, frac_in_cell', ok,
+            'ok' if ok else 'generated definition: wrapped_site = (' + ', '.join(ex) + ') -- theorem does not go through: ' + log[-600:])
+
+
+# ---------------------------------------------------------------- unit: optimal_path method dispatch (C10)
+def dispatch_unit():
+    """Symbolically execute the method-dispatch prefix/suffix of optimal_path for each method literal."""
+    f = _find_func(_parse('path.py'), None, 'optimal_path')
+    methods = ['dijkstra', 'bellman-ford', 'minmax-energy', 'dijkstra-exp', 'simple']
+    table = {}
+
+    def cond(test, env):
+        if isinstance(test, ast.Compare) and len(test.ops) == 1 and isinstance(test.left, ast.Name) and test.left.id == 'method':
+            c = test.comparators[0]
+            if isinstance(test.ops[0], ast.Eq) and isinstance(c, ast.Constant):
+                return env['method'] == c.value
+            if isinstance(test.ops[0], (ast.In, ast.NotIn)) and isinstance(c, ast.Tuple) and all(isinstance(e, ast.Constant) for e in c.elts):
+                r = env['method'] in [e.value for e in c.elts]
+                return r if isinstance(test.ops[0], ast.In) else not r
+        raise Unsupported('condition ' + ast.dump(test)[:80])
+
+    def run(stmts, env):
+        for st in stmts:
+            if isinstance(st, ast.Expr) and isinstance(st.value, ast.Constant):
+                continue
+            if isinstance(st, ast.If):
+                run(st.body if cond(st.test, env) else st.orelse, env)
+            elif isinstance(st, ast.Assign) and len(st.targets) == 1 and isinstance(st.targets[0], ast.Name):
+                t = st.targets[0].id
+                if t in ('weight', 'method') and isinstance(st.value, ast.Constant):
+                    env[t] = st.value.value
+                elif t in ('start', 'stop'):
+                    pass
+                elif t == 'optimal_path' and isinstance(st.value, ast.Call):
+                    fn = st.value.func
+                    name = fn.attr if isinstance(fn, ast.Attribute) else fn.id
+                    if name == 'shortest_path':
+                        kw = {k.arg: k.value for k in st.value.keywords}
+                        if not (isinstance(kw.get('weight'), ast.Name) and kw['weight'].id == 'weight'
+                                and isinstance(kw.get('method'), ast.Name) and kw['method'].id == 'method'):
+                            raise Unsupported('shortest_path keywords')
+                        env['algo'] = env['method']
+                        env['w'] = env['weight']
+                    elif name == '_optimal_path_minmax_energy':
+                        env['post'] = True
+                    else:
+                        raise Unsupported('call ' + name)
+                elif t in ('path_energy', 'path'):
+                    pass
+                else:
+                    raise Unsupported('assign ' + t)
+            elif isinstance(st, ast.Raise):
+                env['raises'] = True
+            elif isinstance(st, ast.Return):
+                pass
+            else:
+                raise Unsupported('statement ' + type(st).__name__)
+
+    for m in methods:
+        env = {'method': m, 'weight': 'UNSET', 'post': False, 'raises': False}
+        run(f.body, env)
+        table[m] = (env.get('w'), env.get('algo'), env['post'], env['raises'])
+    return table
+
+
+def gen_dispatch():
+    os.makedirs(GEN, exist_ok=True)
+    try:
+        table = dispatch_unit()
+    except Unsupported as e:
+        return ('dispatch', False, f'translator: unsupported {e}'), None
+    def s(v):
+        return 'None' if v is None else f'(Some "{v}")'
+    lines = ['(* GENERATED from /repo/src/gemdat/path.py (optimal_path) on every run -- do not edit *)',
+             'From Coq Require Import String List Bool.', 'Import ListNotations.', 'Open Scope string_scope.', '',
+             '(* method -> (edge attribute used as weight, networkx algorithm, min-max post-processing reached, raises) *)',
+             'Definition dispatch (m : string) : option string * option string * bool * bool :=']
+    for m, (w, algo, post, raises) in table.items():
+        lines.append(f'  if String.eqb m "{m}" then ({s(w)}, {s(algo)}, {str(post).lower()}, {str(raises).lower()}) else')
+    lines.append('  (None, None, false, true).')
+    lines += ['', '(* the requested criterion reaches the solver: weights and algorithm per method *)',
+              'Theorem dispatch_respects_method :',
+              '  dispatch "dijkstra" = (Some "weight", Some "dijkstra", false, false) /\\',
+              '  dispatch "bellman-ford" = (Some "weight", Some "bellman-ford", false, false) /\\',
+              '  dispatch "dijkstra-exp" = (Some "weight_exp", Some "dijkstra", false, false) /\\',
+              '  dispatch "simple" = (None, Some "dijkstra", false, false).',
+              'Proof. repeat split; reflexivity. Qed.']
+    open(os.path.join(GEN, 'Dispatch.v'), 'w').write('\n'.join(lines) + '\n')
+    ok, log = compile_gen('Dispatch.v')
+    return ('dispatch: generated method table + dispatch_respects_method', ok, 'ok' if ok else log[-600:]), table
